@@ -69,7 +69,11 @@ RULE = (
     "of the case."
 )
 ASSUMPTIONS = [
-    "no crashes; no message loss and no partitions except in family mlpart, whose partition / loss windows all end before "
+    "pb cases may carry Network.partition windows between the primary and one / all backups (symmetric or asymmetric) that "
+    "are active while writes arrive: the ack oracles apply unchanged (on the correct tree such a write is simply never "
+    "acknowledged), the pb convergence oracle is skipped when the network reports dropped messages (no repair path exists)",
+    "a third of all cases use a falsy key ('' among string keys, or 0 among integer keys)",
+    "no crashes; otherwise no message loss and no partitions except in family mlpart, whose partition / loss windows all end before "
     "the quiescent phase: the statement presupposes that in-flight messages are delivered, so its premise is evaluated "
     "only after the last window has ended",
     "multi-leader 'anti-entropy has run' is measured by timer firings (AntiEntropy ticks and the peer drawn for each, "
@@ -259,7 +263,18 @@ def gen_ops(rng, tier, n_nodes, keys, write_nodes, read_nodes, grid, p_write=0.6
 
 
 def _keys(rng):
-    return [f"k{i}" for i in range(rng.choice([1, 1, 2, 3]))]
+    """1-3 keys.  A third of the cases include a *falsy* key: the empty string among string keys, or 0 among integer
+    keys (legal dictionary keys that `if key:` style guards mistake for 'no key')."""
+    n = rng.choice([1, 1, 2, 3])
+    r = rng.random()
+    if r < 0.2:
+        ks = [""] + [f"k{i}" for i in range(1, n)]
+    elif r < 0.35:
+        ks = list(range(n))
+    else:
+        return [f"k{i}" for i in range(n)]
+    rng.shuffle(ks)  # the hot key is drawn from the list, keep the falsy one anywhere
+    return ks
 
 
 # --------------------------------------------------------------------------
@@ -475,14 +490,32 @@ def gen_pb(rng: random.Random, tier: str) -> dict:
     names = ["p"] + [f"b{i}" for i in range(nb)]
     keys = _keys(rng)
     net = gen_net(rng, names, ["Replicate", "Replicate", "ReplicationAck"])
+    ops = gen_ops(rng, tier, nb + 1, keys, [0], list(range(nb + 1)), net["grid"])
+    cuts = []
+    if rng.random() < 0.3:
+        # Network.partition window between the primary and one / all backups, active while writes arrive
+        wt = [o["t"] for o in ops if o["op"] == "w"]
+        for _ in range(rng.choice([1, 1, 2])):
+            victims = names[1:] if rng.random() < 0.4 else [rng.choice(names[1:])]
+            asym = rng.random() < 0.35
+            a, b = (["p"], victims) if not asym or rng.random() < 0.6 else (victims, ["p"])
+            start = max(0.0, rng.choice(wt) - rng.choice([0.0, 0.0005, 0.004, 0.05]))
+            cuts.append({"kind": "partition", "a": a, "b": b, "asymmetric": asym, "from": round(start, 6),
+                         "to": round(start + rng.choice([0.01, 0.1, 0.5, 2.0, 10.0]), 6)})
+        if len(cuts) == 2:  # Partition.heal() of overlapping windows is C06's subject: keep them disjoint
+            cuts.sort(key=lambda c: c["from"])
+            if cuts[1]["from"] <= cuts[0]["to"]:
+                cuts[1]["from"] = round(cuts[0]["to"] + 0.001, 6)
+                cuts[1]["to"] = round(max(cuts[1]["to"], cuts[1]["from"] + 0.01), 6)
     return {
         "scheme": "pb",
         "mode": rng.choice(["SYNC", "SYNC", "SEMI_SYNC", "SEMI_SYNC", "ASYNC"]),
         "n_backups": nb,
         "keys": keys,
         "lat": gen_lat(rng, nb + 1),
-        "ops": gen_ops(rng, tier, nb + 1, keys, [0], list(range(nb + 1)), net["grid"]),
+        "ops": ops,
         "net": net,
+        "cuts": cuts,
     }
 
 
@@ -503,7 +536,10 @@ def run_pb(case: dict) -> Result:
         backups.append(BackupNode(f"b{i}", store=stores[i + 1], network=net, primary=primary))
     nodes = [primary] + backups
     _add_mesh(net, nodes, script)
-    sim = Simulation(entities=[*nodes, *stores, net])
+    ctl = _partition_ctl(net, nodes, case.get("cuts", []))
+    sim = Simulation(entities=[*nodes, *stores, net, *[e for _t, e in ctl]])
+    for t, ent in ctl:
+        sim.schedule(Event(time=Instant.from_seconds(t), event_type="NetControl", target=ent))
     mon = Mon(stores, keys, nodes, {"Replicate", "Write", "Read", "ReplicationAck"})
 
     def seqs_at(b: int, key: str, upto=None):
@@ -571,8 +607,15 @@ def run_pb(case: dict) -> Result:
     if status != "completed":
         return res
     # quiescence: the run auto-terminated because the heap holds nothing
-    res.count("quiescence_checks")
     res.count("unacked_at_quiescence", len(mon.pending))
+    if case.get("cuts"):
+        res.count("pb_cases_with_partition")
+        res.count("pb_messages_dropped_by_partition", net.events_dropped_partition)
+    if net.events_dropped_partition:
+        # the convergence clause presupposes that in-flight messages are delivered; primary-backup has no repair path
+        res.count("pb_convergence_not_applicable_messages_dropped")
+        return res
+    res.count("quiescence_checks")
     for j, k in enumerate(keys):
         ref = mon.curval[0][j]
         for b in range(1, nb + 1):
@@ -901,6 +944,27 @@ def _net_with_cuts(net_spec: dict, cuts: list[dict]) -> dict:
     return dict(net_spec, rules=rules + list(net_spec.get("rules", [])))
 
 
+def _partition_ctl(net: Network, nodes: list, cuts: list[dict]) -> list[tuple]:
+    """(time, CallbackEntity) pairs that open / heal the Network.partition windows of a case."""
+    by_name = {nd.name: nd for nd in nodes}
+    ctl = []
+    for c in cuts:
+        if c.get("kind", "partition") != "partition":
+            continue
+        handle = {}
+
+        def cut(_e, c=c, handle=handle):
+            handle["h"] = net.partition([by_name[x] for x in c["a"]], [by_name[x] for x in c["b"]], asymmetric=bool(c.get("asymmetric")))
+
+        def heal(_e, handle=handle):
+            if "h" in handle:
+                handle["h"].heal()
+
+        ctl.append((c["from"], CallbackEntity(f"cut@{c['from']}", fn=cut)))
+        ctl.append((c["to"], CallbackEntity(f"heal@{c['to']}", fn=heal)))
+    return ctl
+
+
 def _vc_leq(a: dict, b: dict) -> bool:
     return all(c <= b.get(k, 0) for k, c in a.items())
 
@@ -932,22 +996,7 @@ def run_ml(case: dict) -> Result:
     t_heal = max([c["to"] for c in cuts] + [0.0])
     t_base = max(t_last_op, t_heal)
     horizon = t_base + settle + ML_MAX_ROUNDS * interval
-    by_name = {nd.name: nd for nd in nodes}
-    ctl = []
-    for c in cuts:
-        if c["kind"] != "partition":
-            continue
-        handle = {}
-
-        def cut(_e, c=c, handle=handle):
-            handle["h"] = net.partition([by_name[x] for x in c["a"]], [by_name[x] for x in c["b"]], asymmetric=bool(c.get("asymmetric")))
-
-        def heal(_e, handle=handle):
-            if "h" in handle:
-                handle["h"].heal()
-
-        ctl.append((c["from"], CallbackEntity(f"cut@{c['from']}", fn=cut)))
-        ctl.append((c["to"], CallbackEntity(f"heal@{c['to']}", fn=heal)))
+    ctl = _partition_ctl(net, nodes, cuts)
     sim = Simulation(entities=[*nodes, *stores, net, *[e for _t, e in ctl]], end_time=Instant.from_seconds(horizon))
     mon = Mon(stores, keys, nodes, {"Replicate", "Write", "Read", "AntiEntropyRequest", "AntiEntropyResponse", "AntiEntropy"})
     random.seed(case["ae_seed"])
